@@ -351,15 +351,36 @@ def real_fs(ck, work, quick):
     os.mkdir(os.path.join(d, "tmp4"))
     with open(os.path.join(d, "tmp1", "keep.txt"), "w") as f:
         f.write("precious")
+    # a name can also be taken by a symbolic link - dangling or not
+    os.symlink(os.path.join(work, "outside", "victim"), os.path.join(d, "tmp3"))
+    os.symlink(os.path.join(d, "tmp1"), os.path.join(d, "tmp5"))
     res = child([d, "plain"])
     ck.count("realfs")
     ck.nontrivial(("realfs", "gaps"))
-    ok = (res == ["dir", "tmp3"] and open(os.path.join(d, "tmp2")).read() == "a plain file"
+    ok = (res == ["dir", "tmp6"] and open(os.path.join(d, "tmp2")).read() == "a plain file"
           and open(os.path.join(d, "tmp1", "keep.txt")).read() == "precious"
-          and sorted(os.listdir(d)) == ["tmp1", "tmp2", "tmp3", "tmp4"])
+          and sorted(os.listdir(d)) == ["tmp1", "tmp2", "tmp3", "tmp4", "tmp5", "tmp6"]
+          and os.path.islink(os.path.join(d, "tmp3")) and not os.path.exists(os.path.join(work, "outside"))
+          and sorted(os.listdir(os.path.join(d, "tmp1"))) == ["keep.txt"])
     if not ok:
-        ck.violation(f"real file system with tmp1/ tmp2(file) tmp4/: got {res}, listing {sorted(os.listdir(d))}",
+        ck.violation(f"real file system with tmp1/ tmp2(file) tmp3(dangling link) tmp4/ tmp5(link to tmp1): got {res}, expected tmp6; "
+                     f"listing {sorted(os.listdir(d))}, something created outside: {os.path.exists(os.path.join(work, 'outside'))}",
                      {"case": "gaps", "got": res})
+    # a genuine gap below other taken names: the LOWEST free number is used
+    dg = os.path.join(work, "gaps2")
+    os.mkdir(dg)
+    os.mkdir(os.path.join(dg, "tmp1"))
+    os.mkdir(os.path.join(dg, "tmp3"))
+    with open(os.path.join(dg, "tmp4"), "w") as f:
+        f.write("file")
+    os.mkdir(os.path.join(dg, "tmp10"))
+    os.mkdir(os.path.join(dg, "tmp1.bak"))
+    res = child([dg, "plain"])
+    ck.count("realfs")
+    ck.nontrivial(("realfs", "gaps2"))
+    if res != ["dir", "tmp2"] or sorted(os.listdir(dg)) != ["tmp1", "tmp1.bak", "tmp10", "tmp2", "tmp3", "tmp4"]:
+        ck.violation(f"real file system with tmp1/ tmp3/ tmp4(file) tmp10/ tmp1.bak/: got {res}, expected tmp2; listing {sorted(os.listdir(dg))}",
+                     {"case": "gaps2", "got": res})
     # a working directory that no longer exists: mkdir fails with ENOENT, must stop with that error
     d2 = os.path.join(work, "gone")
     os.mkdir(d2)
